@@ -35,6 +35,7 @@ type Options struct {
 	Intercept   bool
 	InterceptTo string
 	EncodedPath bool
+	Order       []int // optional: order in which the option functions are applied (a permutation of 0..5)
 }
 
 func (o Options) String() string {
@@ -57,31 +58,49 @@ func (o Options) String() string {
 	if o.EncodedPath {
 		ss = append(ss, "encoded")
 	}
+	if len(o.Order) > 0 {
+		ss = append(ss, fmt.Sprintf("order=%v", o.Order))
+	}
 	return "{" + strings.Join(ss, ",") + "}"
 }
 
-// Rux converts to router options.
+// Rux converts to router options; Order (when set) decides in which order they are applied.
 func (o Options) Rux() []func(*rux.Router) {
-	var opts []func(*rux.Router)
+	all := make([]func(*rux.Router), 6)
 	if o.Strict {
-		opts = append(opts, rux.StrictLastSlash)
+		all[0] = rux.StrictLastSlash
 	}
 	if o.NotAllowed {
-		opts = append(opts, rux.HandleMethodNotAllowed)
+		all[1] = rux.HandleMethodNotAllowed
 	}
 	if o.Fallback {
-		opts = append(opts, rux.HandleFallbackRoute)
+		all[2] = rux.HandleFallbackRoute
 	}
 	if o.Caching {
-		opts = append(opts, rux.CachingWithNum(uint16(o.CacheCap)))
+		all[3] = rux.CachingWithNum(uint16(o.CacheCap))
 	}
 	if o.Intercept {
-		opts = append(opts, rux.InterceptAll(o.InterceptTo))
+		all[4] = rux.InterceptAll(o.InterceptTo)
 	}
 	if o.EncodedPath {
-		opts = append(opts, rux.UseEncodedPath)
+		all[5] = rux.UseEncodedPath
+	}
+	order := o.Order
+	if len(order) != len(all) {
+		order = []int{0, 1, 2, 3, 4, 5}
+	}
+	var opts []func(*rux.Router)
+	for _, i := range order {
+		if all[i] != nil {
+			opts = append(opts, all[i])
+		}
 	}
 	return opts
+}
+
+// GenOrder draws an order for the option functions.
+func GenOrder(t *rapid.T) []int {
+	return rapid.Permutation([]int{0, 1, 2, 3, 4, 5}).Draw(t, "optionOrder")
 }
 
 // RouteDef is one registered route of the model table.
